@@ -591,6 +591,7 @@ impl Driver {
         let mut got: Option<Option<u64>> = None;
         let mut contained: Option<bool> = None;
         let mut iterated: Option<Vec<(u32, u64)>> = None;
+        let mut iterated_split: Option<(Vec<(u32, u64)>, Vec<(u32, u64)>)> = None;
         let res = {
             let cut = self.cut.as_mut().unwrap();
             catch_unwind(AssertUnwindSafe(|| match op {
@@ -598,6 +599,7 @@ impl Driver {
                 Op::Get { k } => got = Some(cut.get(k)),
                 Op::Contains { k } => contained = Some(cut.contains(k)),
                 Op::Iter => iterated = Some(cut.iter()),
+                Op::IterAdvance { ns } => iterated_split = Some(cut.iter_advance(ns)),
                 Op::Invalidate { k } => cut.invalidate(k),
                 Op::InvalidateAll => cut.invalidate_all(),
                 Op::InvalidateIf { p } => cut.invalidate_if(p),
@@ -655,6 +657,25 @@ impl Driver {
                 }
                 if is_sync && pre.wlen > 0 {
                     self.result.stats.inc("lookups_with_queued_writes");
+                }
+            }
+            Op::IterAdvance { ns } => {
+                let (before, after) = iterated_split.take().unwrap();
+                self.result.stats.inc("iterations_with_clock_advance");
+                let mut seen = HashSet::new();
+                for (k, v) in &before {
+                    seen.insert(*k);
+                    self.judge_visible("iter", *k, Some(*v), now);
+                }
+                for (k, v) in &after {
+                    if !seen.insert(*k) {
+                        self.violate(&["C16"], "iter:duplicate-key", format!("iteration yielded key {} twice", k));
+                    }
+                    // yielded after the clock moved: must still be live at the later reading
+                    self.judge_visible("iter", *k, Some(*v), now + ns);
+                }
+                if !after.is_empty() {
+                    self.result.stats.nontrivial.insert("C16");
                 }
             }
             Op::Iter => {
@@ -806,6 +827,11 @@ impl Driver {
                     Op::Get { k } => got = Some(cut.get(k)),
                     Op::Contains { k } => contained = Some(cut.contains(k)),
                     Op::Iter => iterated = Some(cut.iter()),
+                    Op::IterAdvance { ns } => {
+                        let (mut x, y) = cut.iter_advance(ns);
+                        x.extend(y);
+                        drop(x);
+                    }
                     Op::Invalidate { k } => cut.invalidate(k),
                     Op::InvalidateAll => cut.invalidate_all(),
                     Op::InvalidateIf { p } => cut.invalidate_if(p),
@@ -1534,7 +1560,7 @@ impl Driver {
                             None => 0,
                         }
                     }
-                    Op::Iter | Op::InvalidateAll | Op::Advance { .. } | Op::Sync => self.allowed_excess,
+                    Op::Iter | Op::IterAdvance { .. } | Op::InvalidateAll | Op::Advance { .. } | Op::Sync => self.allowed_excess,
                     _ => 0,
                 }
             };
